@@ -56,7 +56,7 @@ P = {'id': 'C08',
              'correspondence cases use s_reuse = true with the real node addresses',
              'spec-only cells (oracle on the real code, no mechanism model): free-running stress of LockFreeMemoryPool (with and without zero_on_free), '
              'five-level LockFreePool / MutexBasedPool / ThreadLocalPool, FixedCapacityMemoryPool, SecureMemoryPool, the global secure size-class pools, '
-             'MemoryPool and the global pool.rs pools',
+             'MemoryPool and the global pool.rs pools; the same pools through every other public way in (bulk allocation, RAII guards, FiveLevelPoolHandle of levels 2 and 3, presets as they are, clear(), global pools of all size classes, PooledVec): stress/*/entry_points, stress/five_level::handles, stress/FixedCapacityMemoryPool/presets; controlled runs that contain an operation the models do not have (bulk allocation, clear(), a refused free, large-block / huge paths, pools without statistics, fixed-capacity geometries other than alignment 8 and max_block_size <= 128, stops at the utilization gauge) are judged by the oracle only',
              'not modelled: weak-memory effects (Relaxed/Acquire/Release are treated as sequentially consistent), spurious failure of compare_exchange_weak, '
              'the retry bound max_cas_retries and back-off, the skip-list / huge-block paths (stubs in the code), mutex / RwLock / DashMap internals (each '
              'protected operation is atomic), FixedCapacityMemoryPool lazy initialisation, u64 overflow of stats.allocated, SecureChunk::validate (canaries), '
